@@ -103,6 +103,16 @@ NATIVE_FORALL_WINDOW = 64  # native evaluation of an unbounded quantifier sample
 def _quant(kind, lo, hi, body, sort="int"):
     """forall/exists k in [lo, hi): body(k).  lo/hi may be None (unbounded)."""
     symbolic = HAVE_Z3 and sym.have_ctx()
+    if symbolic and lo is not None and hi is not None and not _any_sym(lo, hi):
+        # concrete range: expand (an empty range is trivially true / false)
+        if int(hi) - int(lo) <= 16:
+            vals = [body(k) for k in range(int(lo), int(hi))]
+            return And(*vals) if kind == "forall" else Or(*vals) if vals else (kind == "forall")
+    if symbolic and lo is not None and hi is not None:
+        p_ = sym._pair(hi, lo)
+        d_ = z3.simplify(p_[0] - p_[1])
+        if z3.is_int_value(d_) and d_.as_long() <= 0:
+            return kind == "forall"
     if symbolic:
         c = sym.ctx()
         name = c.fresh_name("k")
